@@ -711,6 +711,15 @@ func LockOps(fn *ssa.Function) []struct {
 	return out
 }
 
+// LockOps1 classifies a single instruction.
+func LockOps1(in ssa.Instruction) (r struct {
+	Path                       string
+	Acquire, Release, Deferred bool
+}) {
+	r.Path, r.Acquire, r.Release, r.Deferred = lockOp(in)
+	return
+}
+
 // DeferOrigin reports whether in stands for a deferred call of an absorbed helper, placed at the helper's exits
 // by the analysis normal form: it ran on the helper's panic paths too.
 func DeferOrigin(in ssa.Instruction) bool { return ssa.VerifDeferOrigin[in] }
